@@ -60,7 +60,7 @@ uint8_t * jls_mrb_alloc(struct jls_mrb_s * self, uint32_t size) {
     uint32_t head = self->head;
     uint32_t tail = self->tail;
 
-    if (size > self->buf_size) {
+    if ((self->buf_size < 8) || (size > (self->buf_size - 8))) {  // 4 bytes size prefix + 4 bytes wrap marker
         JLS_LOGE("jls_mrb_alloc too big");
         return NULL;
     }
